@@ -25,6 +25,38 @@ pub fn gen_nid(rng: &mut Rng, thorough: bool, out: &mut String) {
             writeln!(out, "nid op=parse in={} out={}", hx(&b), o).unwrap();
         }
     }
+    // things that are not node ids but look related: public keys in their 33-, 64- and 65-byte
+    // forms, hex text of an id (with and without prefix), longer slices
+    {
+        let k = IndKey::gen(rng, Kind::Secp);
+        let comp = k.public();
+        let unc = {
+            let sk = enr::k256::ecdsa::SigningKey::from_slice(&k.sk).unwrap();
+            sk.verifying_key().to_encoded_point(false).as_bytes().to_vec()
+        };
+        let id_hex = hex::encode(rng.bytes(32));
+        let mut others: Vec<Vec<u8>> = vec![
+            comp.clone(),
+            unc.clone(),
+            unc[1..].to_vec(),
+            id_hex.clone().into_bytes(),
+            format!("0x{id_hex}").into_bytes(),
+            id_hex.to_uppercase().into_bytes(),
+            IndKey::gen(rng, Kind::Ed).public(),
+        ];
+        for len in (65..=130usize).chain([256usize, 1024]) {
+            others.push(rng.bytes(len));
+        }
+        for b in others {
+            let res = guard(|| NodeId::parse(&b));
+            let o = match res {
+                None => "panic".into(),
+                Some(Ok(id)) => hx(&id.raw()),
+                Some(Err(_)) => "err".into(),
+            };
+            writeln!(out, "nid op=parse in={} out={}", hx(&b), o).unwrap();
+        }
+    }
     // 32-byte values through every accessor / conversion / formatter
     let n = if thorough { 600 } else { 80 };
     for i in 0..n {
@@ -314,7 +346,30 @@ fn nid_deser(s: &str, out: &mut String) {
         Some(Ok(id)) => hx(&id.raw()),
         Some(Err(_)) => "err".into(),
     };
-    writeln!(out, "nid op=deser in={} out={}", hx(s.as_bytes()), o).unwrap();
+    // the same JSON string by every route serde_json offers (reader, slice, Value, a document in
+    // which one character is written as an escape): the outcome does not depend on the route
+    let show = |r: Option<Result<NodeId, serde_json::Error>>| match r {
+        None => "panic".to_string(),
+        Some(Ok(id)) => hx(&id.raw()),
+        Some(Err(_)) => "err".to_string(),
+    };
+    let mut routes = vec![
+        show(guard(|| serde_json::from_reader::<_, NodeId>(j.as_bytes()))),
+        show(guard(|| serde_json::from_slice::<NodeId>(j.as_bytes()))),
+        show(guard(|| serde_json::from_value::<NodeId>(serde_json::Value::String(s.to_string())))),
+    ];
+    if let Some(c) = s.chars().next() {
+        if (c as u32) < 0x80 && s.len() > 1 {
+            let esc = format!("\"\\u{:04x}{}", c as u32, &j[1 + c.len_utf8().max(1).min(j.len() - 1)..]);
+            // only when the first character is written plainly in `j` (no escape of its own)
+            if j[1..].starts_with(c) {
+                routes.push(show(guard(|| serde_json::from_str::<NodeId>(&esc))));
+                routes.push(show(guard(|| serde_json::from_reader::<_, NodeId>(esc.as_bytes()))));
+            }
+        }
+    }
+    let same = routes.iter().all(|x| *x == o);
+    writeln!(out, "nid op=deser in={} out={} routes={}", hx(s.as_bytes()), o, same as u8).unwrap();
 }
 
 pub fn gen_ck(rng: &mut Rng, thorough: bool, out: &mut String) {
